@@ -49,7 +49,7 @@ Ltac red_q :=
   cbn [step getd setd with_rd with_rd_rf exit_failed set_trig set_remote remote local_closed is_emit_on side_eqb
        dc ds main cli srv wbroken_c wbroken_s sc_closed cc_closed closing done trig dleak_c dleak_s dleak set_dleak
        rd wr wfailed werr chan queued rf inflight other cfg_fixed cfg_orig fix_close fix_done fix_abort
-       werr_buffered credit_unlocks wbroken blocks is_stalled not_errsend
+       werr_buffered credit_unlocks data_errs_propagate wbroken blocks is_stalled not_errsend
        andb orb negb conn_open rf_gone in_loop writer_alive reader_alive] in *.
 
 Ltac qd :=
